@@ -228,6 +228,50 @@ func (p *Prog) Field(pkg, typ, field string) *types.Var {
 			}
 		}
 	}
+	// moved into an embedded struct of the same package (promoted field): same name, reached through
+	// anonymous fields only, unique
+	if n := p.Named(pkg, typ); n != nil {
+		var found []*types.Var
+		var walk func(t types.Type, d int)
+		walk = func(t types.Type, d int) {
+			if d > 3 {
+				return
+			}
+			if pt, ok := t.Underlying().(*types.Pointer); ok {
+				t = pt.Elem()
+			}
+			st, ok := t.Underlying().(*types.Struct)
+			if !ok {
+				return
+			}
+			for i := 0; i < st.NumFields(); i++ {
+				f := st.Field(i)
+				if !f.Embedded() || f.Pkg() != n.Obj().Pkg() {
+					continue
+				}
+				et := f.Type()
+				if pt, ok := et.(*types.Pointer); ok {
+					et = pt.Elem()
+				}
+				if nn, ok := et.(*types.Named); !ok || nn.Obj().Pkg() != n.Obj().Pkg() {
+					continue
+				}
+				if est, ok := et.Underlying().(*types.Struct); ok {
+					for j := 0; j < est.NumFields(); j++ {
+						if est.Field(j).Name() == field && !est.Field(j).Embedded() {
+							found = append(found, est.Field(j))
+						}
+					}
+					walk(et, d+1)
+				}
+			}
+		}
+		walk(n, 0)
+		if len(found) == 1 {
+			promotedOwner[found[0]] = normType(types.TypeString(n, shortQ))
+			return found[0]
+		}
+	}
 	return nil
 }
 
